@@ -1,6 +1,6 @@
 #!/bin/bash
 # usage: mutant_wt.sh <patch.diff> <ID> [tier]  -- run a check against a scratch worktree of /repo with a seeded change applied
-# (never touches /repo's working tree; safe to run concurrently). NOTE: overwrites evidence/<ID>.json - re-run the clean check afterwards.
+# (never touches /repo's working tree; safe to run concurrently). Evidence of the mutant run goes to the scratch worktree, not to /verif/evidence.
 set -u
 P=$(readlink -f "$1"); ID=$2; TIER=${3:-quick}
 WT=/tmp/wt/mt_$$_$RANDOM
@@ -8,7 +8,7 @@ git -C /repo worktree add -q --detach "$WT" HEAD || exit 9
 trap 'git -C /repo worktree remove --force "$WT" >/dev/null 2>&1' EXIT INT TERM
 ( cd "$WT" && { git apply "$P" 2>/dev/null || git apply -C1 --recount "$P" 2>/dev/null || patch -p1 -s -F3 --binary < "$P"; } ) || { echo "patch does not apply"; exit 9; }
 cd /verif
-SYMX_REPO="$WT" timeout ${TIMEOUT:-1500} python3 bin/check.py "$ID" --tier "$TIER" 2>&1 | grep -v "^\*\*\*\|^Numba\|^\. \|^$\|^https" | tail -${TAIL:-8}
+SYMX_REPO="$WT" SYMX_EVIDENCE_DIR="$WT/.symx_evidence" timeout ${TIMEOUT:-1500} python3 bin/check.py "$ID" --tier "$TIER" 2>&1 | grep -v "^\*\*\*\|^Numba\|^\. \|^$\|^https" | tail -${TAIL:-8}
 rc=${PIPESTATUS[0]}
 echo "exit=$rc"
 exit $rc
